@@ -40,7 +40,7 @@ def main():
     prop = sys.argv[2] if len(sys.argv) > 2 else name[:3]
     wt = "/tmp/seed/%s" % name
     env = dict(os.environ, CARGO_NET_OFFLINE="true", CARGO_TARGET_DIR=wt + "/target")
-    demo = [l.split()[-1] for l in sh("git status --porcelain", cwd=wt)[1].splitlines() if "seeded_demo" in l]
+    demo = [l.split()[-1] for l in sh("git status --porcelain -uall", cwd=wt)[1].splitlines() if "seeded_demo" in l]
     patch = open(wt + "/patch.diff").read()
     changed = re.findall(r"^\+\+\+ b/(\S+)", patch, re.M)
     meta = {"name": name, "property": prop, "changed_files": changed, "demo": demo}
